@@ -136,7 +136,7 @@ func (f *formattedSpreaderPipeline[T]) spread(ctx context.Context, w io.Writer, 
 					break BREAK
 				}
 				if err := encode(toFormattedNode(root, f.formattedRoot(root.name))); err != nil {
-					errc <- err
+					sendErr(ctx, errc, err)
 				}
 			}
 		}
@@ -180,12 +180,12 @@ func (cs *colorizeSpreaderPipeline) spread(ctx context.Context, w io.Writer, roo
 						cs.spreadBranch(root),
 						cs.summary()),
 				); err != nil {
-					errc <- err
+					sendErr(ctx, errc, err)
 					return
 				}
 			}
 			if err := bw.Flush(); err != nil {
-				errc <- err
+				sendErr(ctx, errc, err)
 				return
 			}
 		}
